@@ -69,9 +69,12 @@ def cloneData : DF → List (List Nat)
   | .nil => []
   | .cons d k s => d :: (cloneData k ++ cloneData s)
 
+def keyFrom : Nat → List (List Nat) → List (Option Nat × List Nat)
+  | _, [] => []
+  | i, d :: l => (some i, d) :: keyFrom (i + 1) l
+
 def nodeData (f : DF) (outs : List Nat) (hasOutKey : Bool) : List (Option Nat × List Nat) :=
-  let cl := cloneData f
-  let keyed := (List.range cl.length).zip cl |>.map fun (i, d) => (some i, d)
+  let keyed := keyFrom 0 (cloneData f)
   if hasOutKey ∨ outs ≠ [] then (none, outs) :: keyed else keyed
 
 /-- the loop of `update_concentration_value`: skip the outlier key, collect `len(node_data)` -/
